@@ -314,6 +314,18 @@ func c08Order(c *Ctx) {
 		}
 		return "", false
 	}
+	// a value loaded from an ordered record (possibly re-sliced)
+	var loadOfOrdered func(v ssa.Value) bool
+	loadOfOrdered = func(v ssa.Value) bool {
+		switch x := v.(type) {
+		case *ssa.UnOp:
+			_, is := isOrderedAddr(x.X)
+			return is
+		case *ssa.Slice:
+			return loadOfOrdered(x.X)
+		}
+		return false
+	}
 	var fns []*ssa.Function
 	seen := map[*ssa.Function]bool{}
 	for _, f := range c.P.FuncsIn("core", "interpreters/ecmascript") {
@@ -335,6 +347,9 @@ func c08Order(c *Ctx) {
 						if b, isB := cl.Common().Value.(*ssa.Builtin); isB && b.Name() == "append" {
 							isAcc[f] = true
 						}
+					}
+					if sl, isSl := x.Val.(*ssa.Slice); isSl && loadOfOrdered(sl.X) {
+						isAcc[f] = true
 					}
 				}
 			}
@@ -383,7 +398,20 @@ func c08Order(c *Ctx) {
 			switch x := in.(type) {
 			case *ssa.Go:
 				bad = append(bad, "go statement")
+			case *ssa.Store:
+				// a record only grows: it is never cut down or overwritten in place
+				if _, is := isOrderedAddr(x.Addr); is {
+					if sl, isSl := x.Val.(*ssa.Slice); isSl && loadOfOrdered(sl.X) && (sl.Low != nil || sl.High != nil) {
+						bad = append(bad, "an ordered record is replaced by a part of itself (recorded elements are dropped)")
+					}
+				}
+				if ia, isIA := x.Addr.(*ssa.IndexAddr); isIA && loadOfOrdered(ia.X) {
+					bad = append(bad, "an element of an ordered record is overwritten in place")
+				}
 			case *ssa.Call:
+				if b, ok := x.Common().Value.(*ssa.Builtin); ok && b.Name() == "copy" && loadOfOrdered(x.Common().Args[0]) {
+					bad = append(bad, "copy() into an ordered record (recorded elements are overwritten)")
+				}
 				if b, ok := x.Common().Value.(*ssa.Builtin); ok && b.Name() == "append" {
 					// only appends whose result goes to an ordered record (directly or through an accumulator) matter
 					toOrdered := false
@@ -421,7 +449,7 @@ func c08Order(c *Ctx) {
 				}
 			}
 		})
-		c.R.Check(len(bad) == 0, "C08-R4", fname(f), c.P.Pos(f.Pos()), "no go; ordered records are never extended inside a map range; appends extend their own operand", strings.Join(bad, "; "))
+		c.R.Check(len(bad) == 0, "C08-R4", fname(f), c.P.Pos(f.Pos()), "no go; ordered records are never extended inside a map range; appends extend their own operand; a record is never cut down or overwritten in place", strings.Join(bad, "; "))
 	}
 }
 
@@ -1070,32 +1098,80 @@ func c08Enumerations(c *Ctx) {
 	n := 0
 	for _, f := range c.P.FuncsIn("core", "sio", "cmd/mcrew", "cmd/msimple", "cmd/sheensio", "interpreters/ecmascript") {
 		for _, l := range flow.Loops(f) {
-			iff, ok := l.Header.Instrs[len(l.Header.Instrs)-1].(*ssa.If)
-			if !ok {
-				continue
+			// a loop whose counter indexes an ordered record
+			var ph *ssa.Phi
+			rec := ""
+			for b := range l.Blocks {
+				for _, in := range b.Instrs {
+					ia, ok := in.(*ssa.IndexAddr)
+					if !ok {
+						continue
+					}
+					r := isRecord(ia.X)
+					if r == "" {
+						continue
+					}
+					if p, isPhi := ia.Index.(*ssa.Phi); isPhi && p.Block() == l.Header {
+						ph, rec = p, r
+					}
+				}
 			}
-			bo, ok := iff.Cond.(*ssa.BinOp)
-			if !ok {
-				continue
+			iff, isIf := l.Header.Instrs[len(l.Header.Instrs)-1].(*ssa.If)
+			if ph == nil && isIf {
+				// or whose header tests a counter against the record's length
+				if bo, ok := iff.Cond.(*ssa.BinOp); ok {
+					if r := derived(bo.Y, 0); r != "" {
+						if p, isPhi := bo.X.(*ssa.Phi); isPhi && p.Block() == l.Header {
+							ph, rec = p, r
+						}
+					}
+				}
 			}
-			rec := derived(bo.Y, 0)
-			if rec == "" {
-				continue
-			}
-			ph, isPhi := bo.X.(*ssa.Phi)
-			if !isPhi || ph.Block() != l.Header {
+			if ph == nil || !isIf {
 				continue
 			}
 			n++
-			okBound := bo.Op == token.LSS && lenOfRecord(bo.Y) != ""
-			okStart := false
 			out, _ := splitPhi(l, ph)
-			if len(out) == 1 {
-				if k, isC := ssau.ConstInt(out[0]); isC && k == 0 {
-					okStart = true
+			okScan := false
+			if bo, ok := iff.Cond.(*ssa.BinOp); ok && len(out) == 1 {
+				// forward: from 0 while i < len(rec)
+				if k, isC := ssau.ConstInt(out[0]); isC && k == 0 && bo.Op == token.LSS && bo.X == ssa.Value(ph) && lenOfRecord(bo.Y) != "" {
+					okScan = true
+				}
+				// backward: from len(rec)-1 while 0 <= i (or i >= 0)
+				if sub, isSub := out[0].(*ssa.BinOp); isSub && sub.Op == token.SUB && lenOfRecord(sub.X) != "" {
+					if one, isC := ssau.ConstInt(sub.Y); isC && one == 1 {
+						zeroL, isZL := ssau.ConstInt(bo.X)
+						zeroR, isZR := ssau.ConstInt(bo.Y)
+						if (bo.Op == token.LEQ && isZL && zeroL == 0 && bo.Y == ssa.Value(ph)) || (bo.Op == token.GEQ && isZR && zeroR == 0 && bo.X == ssa.Value(ph)) {
+							okScan = true
+						}
+					}
 				}
 			}
-			c.R.Check(okBound && okStart, "C08-R4", fmt.Sprintf("%s: counted loop over %s #%d visits every element", fname(f), rec, n), c.pos(iff), "from 0 while i < len("+rec+")", "a loop over "+rec+" does not visit all of it (it starts late or stops short of the length): the messages of a stride that was taken — the last one of a walk that ended at its limit or a breakpoint — are dropped from what is reported")
+			// no second bound on the counter: an exit from inside the loop that is decided by comparing the counter
+			for b := range l.Blocks {
+				if b == l.Header || len(b.Instrs) == 0 {
+					continue
+				}
+				bi, isBI := b.Instrs[len(b.Instrs)-1].(*ssa.If)
+				if !isBI {
+					continue
+				}
+				leaves := false
+				for _, sc := range b.Succs {
+					if !l.Blocks[sc] {
+						leaves = true
+					}
+				}
+				if bo, isBO := bi.Cond.(*ssa.BinOp); isBO && leaves && (bo.X == ssa.Value(ph) || bo.Y == ssa.Value(ph)) {
+					switch bo.Op {
+					case token.LSS, token.LEQ, token.GTR, token.GEQ:
+						okScan = false
+					}
+				}
+			}
+			c.R.Check(okScan, "C08-R4", fmt.Sprintf("%s: counted loop over %s #%d visits every element", fname(f), rec, n), c.pos(iff), "from 0 while i < len("+rec+"), or from len-1 down to 0", "a loop over "+rec+" does not scan all of it (it starts late, stops short, or carries a second bound): strides that were taken — and what they emitted or where they led — are left out of the answer")
 		}
 	}
 	c.R.Extra["counted_loops_over_ordered_records"] = n
